@@ -46,6 +46,9 @@ const F_C: FileId = FileId(2);
 const F_APP_TOML: FileId = FileId(3);
 const F_L: FileId = FileId(4);
 const F_LIB_TOML: FileId = FileId(5);
+/// a module of `lib` with the same name as app's `b` (the importing package's own module must win, always)
+const F_LB: FileId = FileId(6);
+const LB: &str = "pub fn inc(n: Int) -> String { \"lib\" }\npub fn only_lib() { 1 }\n";
 
 #[derive(Clone, Debug, PartialEq, Eq)]
 pub struct WState {
@@ -71,6 +74,7 @@ impl WState {
         app.insert(F_APP_TOML, VfsPath::new("/ws/app/gleam.toml"));
         let mut lib = FileSet::default();
         lib.insert(F_L, VfsPath::new("/ws/lib/src/l.gleam"));
+        lib.insert(F_LB, VfsPath::new("/ws/lib/src/b.gleam"));
         lib.insert(F_LIB_TOML, VfsPath::new("/ws/lib/gleam.toml"));
         let mut v = vec![SourceRoot::new(app, "/ws/app".into()), SourceRoot::new(lib, "/ws/lib".into())];
         if self.swapped {
@@ -98,6 +102,7 @@ impl WState {
         }
         ch.change_file(F_APP_TOML, Arc::from("name = \"app\"\n"));
         ch.change_file(F_L, Arc::from(L));
+        ch.change_file(F_LB, Arc::from(LB));
         ch.change_file(F_LIB_TOML, Arc::from("name = \"lib\"\n"));
         ch.set_roots(self.roots());
         ch.set_package_graph(self.graph());
@@ -110,6 +115,7 @@ impl WState {
             v.push((F_C, "c", C[c].to_string()));
         }
         v.push((F_L, "l", L.to_string()));
+        v.push((F_LB, "lib:b", LB.to_string()));
         v
     }
 }
